@@ -299,6 +299,16 @@ class _Canon(ast.NodeTransformer):
 
     def visit_If(self, n: ast.If):
         self.generic_visit(n)              # the test is now in negation normal form
+        # `if A and B: X  elif A: Y  [else: Z]`  ->  `if A: (if B: X else: Y)  [else: Z]` -- one branch per case of the dispatch, the
+        # refinement inside it (A is a comparison of plain names / attributes / constants: evaluating it once instead of twice changes nothing)
+        if isinstance(n.test, ast.BoolOp) and isinstance(n.test.op, ast.And) and len(n.orelse) == 1 and isinstance(n.orelse[0], ast.If):
+            nxt, first = n.orelse[0], n.test.values[0]
+            if ast.dump(first) == ast.dump(nxt.test) and isinstance(first, ast.Compare) \
+                    and all(isinstance(x, (ast.Compare, ast.Name, ast.Attribute, ast.Constant, ast.cmpop, ast.expr_context)) for x in ast.walk(first)):
+                rest = n.test.values[1:]
+                cond = rest[0] if len(rest) == 1 else ast.copy_location(ast.BoolOp(op=ast.And(), values=rest), n.test)
+                inner = ast.copy_location(ast.If(test=cond, body=n.body, orelse=nxt.body), n)
+                n.test, n.body, n.orelse = first, [inner], nxt.orelse
         # A plain two-way branch (else present, no elif on either side) has two spellings: `if P: A else: B` and
         # `if not-P: B else: A`.  The one whose test has fewer negative literals is canonical (ties: as written).
         if n.orelse and not (len(n.orelse) == 1 and isinstance(n.orelse[0], ast.If)) and not getattr(n, "_is_elif", False) \
@@ -941,6 +951,8 @@ class Program:
                 except SyntaxError as e:
                     raise AnalysisError(f"{path}: does not parse: {e}")
                 from .inline import inline_private_helpers
+                from .sra import split_tuple_locals
+                split_tuple_locals(tree)              # `sig = (n, d)` used only piecewise is two locals
                 inline_private_helpers(tree)          # "extract helper" undone before anything looks at the shape of a function
                 tree = _Canon().visit(tree)
                 ast.fix_missing_locations(tree)
